@@ -26,6 +26,7 @@ def Hint.ErrWf : Hint → Prop
   | .quasi _ h => h.ErrWf
   | .mapping _ k v => k.ErrWf ∧ v.ErrWf
   | .annotated h _ => h.ErrWf
+  | .generic _ bs => ErrWfList bs
 def ErrWfList : List Hint → Prop
   | [] => True
   | h :: hs => h.ErrWf ∧ ErrWfList hs
@@ -208,6 +209,25 @@ theorem C03_no_desync (hW : W.Wf) : ∀ (h : Hint) (x : Obj), h.WfIn W → h.Err
         | true => rw [chk_ignorable W conf r h x hh] at h1; cases h1
       exact ⟨hig, C03_no_desync hW h x hwf.1 he hw h1⟩
     · exact Or.inr h2
+  | .generic c bs, x, hwf, he, hw, hc => by
+    simp only [Hint.WfIn] at hwf
+    simp only [Hint.ErrWf] at he
+    simp only [chk, Bool.and_eq_false_iff] at hc
+    simp only [hasCause, Bool.or_eq_true, Bool.not_eq_true']
+    rcases hc with h1 | h2
+    · exact Or.inl h1
+    · exact Or.inr (basesCause_of hW bs x hwf.1 he hw h2)
+theorem basesCause_of (hW : W.Wf) : ∀ (hs : List Hint) (x : Obj), WfInList W hs → ErrWfList W hs → x.wf W = true →
+    chkEvery W conf r hs x = false → basesCause W conf r st hs x = true
+  | [], _, _, _, _, hc => by simp [chkEvery] at hc
+  | h :: hs, x, hwf, he, hw, hc => by
+    simp only [WfInList] at hwf
+    simp only [ErrWfList] at he
+    simp only [chkEvery, Bool.and_eq_false_iff] at hc
+    simp only [basesCause, Bool.or_eq_true]
+    rcases hc with h1 | h2
+    · exact Or.inl (C03_no_desync hW h x hwf.1 he.1 hw h1)
+    · exact Or.inr (basesCause_of hW hs x hwf.2 he.2 hw h2)
 theorem unionCause_of (hW : W.Wf) : ∀ (hs : List Hint) (x : Obj), WfInList W hs → ErrWfList W hs → x.wf W = true →
     chkAny W conf r hs x = false → unionCause W conf r st hs x = true
   | [], _, _, _, _, _ => by simp [unionCause]
